@@ -4,6 +4,7 @@ import (
 	"encoding/json"
 	"fmt"
 	"reflect"
+	"strconv"
 	"time"
 
 	astisub "github.com/asticode/go-astisub"
@@ -420,6 +421,9 @@ func GenListSized(r *prng.R, idx, maxStyles, maxRegions, maxItems int) ListSpec 
 			m.SSAScriptType = r.Pick("v4.00", "v4.00+", "")
 			m.SSAPlayResX = ip(r.Range(100, 2000))
 			m.Comments = []string{asciiSentence(r, 1, 4)}
+			if r.Bool(0.4) { // comments as callers and readers may leave them: padded, with a line break, empty
+				m.Comments = append(m.Comments, r.Pick("  padded "+asciiSentence(r, 1, 2)+" ", "two\nlines", "tab\tinside\r\n", ""))
+			}
 			m.STLDisplayStandardCode = r.Pick("0", "1", "")
 			m.STLCountryOfOrigin = "FRA"
 			m.STLPublisher = "pub"
@@ -427,7 +431,7 @@ func GenListSized(r *prng.R, idx, maxStyles, maxRegions, maxItems int) ListSpec 
 			m.Framerate = 25
 			m.STLDisplayStandardCode = "1"
 		}
-		switch r.Intn(4) { // STL dates: both, creation only, revision only, none
+		switch r.Intn(6) { // STL dates: both, creation only, revision only, none, zero instants (what ReadFromSTL leaves for blank fields)
 		case 0:
 			t1 := time.Date(2017, 7, 2, 0, 0, 0, 0, time.UTC)
 			t2 := time.Date(2019, 12, 31, 0, 0, 0, 0, time.UTC)
@@ -438,6 +442,13 @@ func GenListSized(r *prng.R, idx, maxStyles, maxRegions, maxItems int) ListSpec 
 		case 2:
 			t2 := time.Date(2011, 11, 11, 23, 30, 0, 0, time.UTC)
 			m.STLRevisionDate = &t2
+		case 4:
+			var z1, z2 time.Time
+			m.STLCreationDate, m.STLRevisionDate = &z1, &z2
+		case 5:
+			var z time.Time
+			t2 := time.Date(1999, 12, 31, 0, 0, 0, 0, time.UTC)
+			m.STLCreationDate, m.STLRevisionDate = &z, &t2
 		}
 		if r.Bool(0.3) {
 			m.WebVTTTimestampMap = &astisub.WebVTTTimestampMap{Local: time.Second, MpegTS: 900000}
@@ -525,4 +536,45 @@ func swapCase(s string) string {
 		}
 	}
 	return string(b)
+}
+
+// ManyCues is a plain list of n cues (two styles, one region, complete metadata so that every writer accepts it):
+// the workload for size thresholds inside writers (batching, pre-sizing, worker pools, counters with a fixed
+// number of digits). Built without a generator: the replay file carries only n.
+func ManyCues(n int) ListSpec {
+	t1 := time.Date(2017, 7, 2, 0, 0, 0, 0, time.UTC)
+	t2 := time.Date(2019, 12, 31, 0, 0, 0, 0, time.UTC)
+	l := ListSpec{Name: "many-" + strconv.Itoa(n),
+		Styles:  []StyleSpec{{ID: "s1", Attrs: &astisub.StyleAttributes{SSAFontName: "Arial", SSAFontSize: fp(20), TTMLColor: sp("white")}}, {ID: "s2", Attrs: &astisub.StyleAttributes{SSABold: bp(true), TTMLColor: sp("yellow")}}},
+		Regions: []RegionSpec{{ID: "r1", Attrs: &astisub.StyleAttributes{TTMLOrigin: sp("10% 80%"), TTMLExtent: sp("80% 10%")}}},
+		Meta: &astisub.Metadata{Title: "many", Language: astisub.LanguageEnglish, Framerate: 25, SSAScriptType: "v4.00+", SSAPlayResX: ip(640), STLDisplayStandardCode: "1",
+			STLCountryOfOrigin: "FRA", STLPublisher: "pub", STLCreationDate: &t1, STLRevisionDate: &t2}}
+	l.Items = make([]ItemSpec, n)
+	for i := range l.Items {
+		it := ItemSpec{StartMs: i * 2000, EndMs: i*2000 + 1500, Index: i + 1, Style: "s1"}
+		if i%3 == 1 {
+			it.Style, it.Region = "s2", "r1"
+		}
+		it.Lines = []LineSpec{{Items: []LineItemSpec{{Text: "cue number " + strconv.Itoa(i)}}}}
+		if i%5 == 0 {
+			it.Lines = append(it.Lines, LineSpec{Items: []LineItemSpec{{Text: "second line of " + strconv.Itoa(i)}}})
+		}
+		l.Items[i] = it
+	}
+	if n > 0 {
+		l.Items[n-1].Lines = []LineSpec{{Items: []LineItemSpec{{Text: "the very last cue ends with lastword" + strconv.Itoa(n)}}}}
+	}
+	return l
+}
+
+// ExtremeTimes reports whether the list has cues before zero or beyond ten hours. Fragment is quadratic in
+// (duration / period): such a list cut every second never finishes - an input the workloads must not combine
+// with Fragment / ForceDuration (C08/C10 territory, not what C19 and C20 are about).
+func (l ListSpec) ExtremeTimes() bool {
+	for _, it := range l.Items {
+		if it.StartMs < 0 || it.EndMs > 36000000 || it.StartMs > 36000000 {
+			return true
+		}
+	}
+	return false
 }
